@@ -22,7 +22,7 @@ EXTENDS Naturals, Sequences, FiniteSets, TLC
 
 \* ---------------------------------------------------------------- part A
 Entries == {"pdu.decode", "dep.I.decode_frame", "dep.T.decode_frame", "dep.I.exchange", "dep.T.exchange", "tt3emu.process_command",
-            "snep.process_snep_request", "handover._process_request_data", "llc.dispatch", "pdu.str"}
+            "snep.process_snep_request", "handover._process_request_data", "llc.dispatch", "pdu.str", "pdu.eq"}
 Allowed(entry, cls, exc) ==
     CASE entry = "pdu.decode" -> cls = "value" \/ (cls = "raise" /\ exc = "DecodeError")
       [] entry \in {"dep.I.decode_frame", "dep.T.decode_frame"} ->
@@ -33,6 +33,7 @@ Allowed(entry, cls, exc) ==
       [] entry = "tt3emu.process_command" -> cls \in {"value", "none"}
       [] entry \in {"snep.process_snep_request", "handover._process_request_data"} -> cls = "value"
       [] entry = "llc.dispatch" -> cls \in {"value", "none"}          \* dispatch of a decoded PDU never raises
+      [] entry = "pdu.eq" -> cls = "value"                             \* comparing a decoded PDU with another never raises
       [] entry = "pdu.str" -> cls = "value"                            \* rendering a decoded PDU for the log never raises
       [] OTHER -> FALSE
 
